@@ -150,6 +150,18 @@ CLAIMS = {
          "(create, update, delete, being-deleted via finalizer, key-less, empty value, foreign namespace, unrelated names, resyncs) applied to controller-runtime's fake client and followed by the "
          "real Reconcile; after every event each filter's GetClientSecret() is compared with the controller model and with the reference in Coq; for every tenth configuration the Authorization "
          'header of a real authorization-code exchange is checked to carry the current value.'},
+    'C20': {'note': "Trusted: Coq kernel+vm_compute; hand-written pool model; Go's crypto/tls and x509; real-time waits (10 intervals of 40-80 ms); FNV-64a collision-freedom on explored keys. Known finding: a "
+         'later registration for the same file with different settings cancels the earlier watcher. The lookup-then-insert window of LoadTLSConfig under concurrent first loads is not explored. '
+         'Gallina axioms: none.',
+ 'technique': 'Coq proof on a model of LoadTLSConfig / updateCA / FileWatcher / BoolStrValue: first load builds exactly the expected trust, skip only if requested and no CA, identical settings '
+              'share, distinct settings get distinct objects (pool key injective), rotation reaches the pooled object at the next tick, superseded watcher stops; refutation witnesses for the old key '
+              'and for two settings on one file; correspondence: real pool + watcher + NewHTTPClient judged by real TLS handshakes against loopback servers of throw-away CAs',
+ 'text': 'PARTIAL (decision and bookkeeping logic proved; X.509, handshake and timers are runtime facts exercised by the correspondence run). Machine-checked: C20_trust_matches_config, '
+         'C20_skip_only_if_requested_and_no_ca, C20_identical_settings_share, C20_distinct_settings_distinct, C20_rotation, C20_superseded_watcher_stops (+ Examples C20_old_pool_key_collides, '
+         'C20_rotation_refuted_two_settings_one_file). Tie to the code on every run: 5 designed scenarios (colliding concatenations, identical settings, single-watcher rotation A->B->A, two settings '
+         'on one file, every spelling of skip_verify) and 40 random sequences of loads / CA-file rewrites / waits of ten intervals against the real pool and watcher; after every step every client '
+         'built by NewHTTPClient at load time opens NEW connections to the TLS servers of CA A and CA B; load results (nil / error / object identity) and handshake outcomes are compared with the '
+         'pool model and with a settings-and-file-history reference in Coq.'},
     "C07": {
         "technique": "Coq proof (induction over rule/pattern lists and strings) of the trigger decision = documented function of the path component, for all rule sets, targets and regex engines; correspondence: exhaustive small-alphabet targets x rule sets through ExtAuthZFilter.Check, evaluated against model and an independent monitor by coqc vm_compute",
         "text": "Machine-checked theorems (C07_trigger_spec, C07_query_irrelevant, C07_path_split; closed under the global context) over a model of GetPathQueryFragment/stringMatch/matchTriggerRule/mustTriggerCheck, for ALL rule sets and ALL byte strings. The model is tied to the code on every run by running ExtAuthZFilter.Check of the current tree on every target over {/,a,b,.,?,#} up to length 5 (6 in thorough) for dozens of rule sets (all four match kinds, regex from a sub-grammar) and comparing with the model and with an independently written boolean spec inside Coq.",
